@@ -15,7 +15,11 @@ C19 runner. The PEG runtime's own reset (`Reset()` clearing memo table and token
 generated parser and is covered by that runner only.
 -/
 import JPV.Peg.ParseModel
-import JPV.Props.Ties
+import JPV.Props.Facts.ParseWrapper
+import JPV.Props.Facts.ParserRefs
+import JPV.Props.Facts.PkgVarAssign
+import JPV.Props.Facts.PkgVars
+import JPV.Props.Facts.FactParseWrapper
 namespace JPV
 namespace C19
 open Peg
